@@ -140,7 +140,10 @@ PROPS = {
                      {"engine": "clusterdiff", "profile": "healthy", "salt": 73, "quick": {"n": 160, "len": 40, "timeout": 900}, "thorough": {"n": 3000, "len": 50, "timeout": 3000}},
                      # 'does not change for writes applied while rebuilding … set equal to the source's when promoted': the
                      # rebuild on the real stack, incl. a write between the promotion and the replica's SetRebuilding(false)
-                     dict(rep("rebuild", 96, 30, 800, 40, 78), **{"thorough": {"n": 800, "len": 40, "timeout": 6000}})],
+                     dict(rep("rebuild", 96, 30, 800, 40, 78), **{"thorough": {"n": 800, "len": 40, "timeout": 6000}}),
+                     # the controller's half of the promotion (the count is read and given under ONE hold of the lock:
+                     # a write arriving meanwhile is served afterwards and counted by the promoted replica too)
+                     ctl("membership", 320, 30, 6000, 40, 79)],
             "modelled": FS + [
                 "volume level ('all RW replicas of a volume report the same count'): c10_rw_replicas_agree over the whole-volume model Model/Cluster.lean, for ANY history incl. stops in any state; tie: clusterdiff (the real controller over replica stand-ins that count like the replica model: +1 per write applied while RW, SetRevisionCounter at promotion) compares every directory's counter after every step",
                 "modelled: the counter file is one 4 KiB O_DIRECT block rewritten by a single pwrite under revisionLock; concurrent writers are one atomic step each"]},
